@@ -6,7 +6,9 @@ MODEL_VOS = ["model/UdpProto.vo"]
 ASSUMPTIONS = [
     "theorems hold for every reachable state of the UdpProto transition system (all schedules, all fault sequences); the tie to the Go code is the trace-acceptance run: the extracted acceptor (proved sound: accept_ack_safe, accept_retx_same, accept_gapless) must accept every recorded session of the real endpoints",
     "the acceptor keeps the most optimistic receiver state (every datagram returned by ReadFrom counts as received), which is exactly the property's 'set of datagrams the network has so far delivered to its sender'",
-    "datagrams are attributed to sessions and decoded by refcodec, an independent codec written from docs/protocol.md; traces are cut at the first application Close (close responses bypass the send queue; C03 covers close)",
+    "datagrams are attributed to sessions and decoded by refcodec, an independent codec written from docs/protocol.md",
+    "after the first Close of a session only emissions are recorded and the acceptor (late_step, theorem C13_trace_retx_same_across_close) demands one content per sequence number for data AND control segments; gaplessness of first transmissions is not demanded there because queued segments may be discarded and the close response bypasses the send queue",
+    "the close-race family needs real parallelism (GOMAXPROCS 2) between the woken Close and the output loop; about 1.7 % of its schedules put the data fragment on the wire before the close request reuses its number, hence 600 (quick) / 3000 (thorough) cheap schedules",
     "sequence numbers are modelled unbounded (uint32 wrap needs 2^32 segments in one session)",
 ]
 
